@@ -787,6 +787,8 @@ pub enum Place {
     Table(usize),
     /// `rename = n(i)` only
     RenameOnly(usize),
+    /// a library container around corpus types: no output path of its own
+    NotExportable,
     /// literal attributes
     Lit {
         name: &'static str,
@@ -914,7 +916,12 @@ pub const ZS0_: usize = 105;
 pub const ZS1_: usize = 106;
 pub const ZS2_: usize = 107;
 pub const ZS3_: usize = 108;
-pub const DER_HANDLES: usize = 109;
+/// end (exclusive) of the manifest-free range
+pub const AUTO_TO: usize = 109;
+pub const VEC_A0: usize = 109;
+pub const OPT_USEG: usize = 110;
+pub const BOX_C0: usize = 111;
+pub const DER_HANDLES: usize = 112;
 
 use Place::{Lit, RenameOnly, Table as Tb};
 
@@ -1066,6 +1073,10 @@ pub const MANIFEST: [DerInfo; DER_HANDLES] = [
     DerInfo { label: "ZS1", place: Tb(93), import_refs: &[], reach_refs: &[] },
     DerInfo { label: "ZS2", place: Tb(94), import_refs: &[], reach_refs: &[] },
     DerInfo { label: "ZS3", place: Tb(95), import_refs: &[], reach_refs: &[] },
+    // non-exportable container roots with exportable contents (C17: must fail and touch nothing)
+    DerInfo { label: "Vec<A0>", place: Place::NotExportable, import_refs: &[], reach_refs: &[A0_] },
+    DerInfo { label: "Option<UseG>", place: Place::NotExportable, import_refs: &[], reach_refs: &[USEG] },
+    DerInfo { label: "Box<C0>", place: Place::NotExportable, import_refs: &[], reach_refs: &[C0_] },
 ];
 
 pub fn der_handle(h: usize) -> Handle {
@@ -1180,6 +1191,9 @@ pub fn der_handle(h: usize) -> Handle {
         ZS1_ => handle::<ZS1>(l),
         ZS2_ => handle::<ZS2>(l),
         ZS3_ => handle::<ZS3>(l),
+        VEC_A0 => handle::<Vec<A0>>(l),
+        OPT_USEG => handle::<Option<UseG>>(l),
+        BOX_C0 => handle::<Box<C0>>(l),
         _ => panic!("no such derived handle {h}"),
     }
 }
